@@ -407,8 +407,8 @@ func (m *mutator) gogitRound(w *git.Worktree) {
 
 func run(c *vf.Ctx) {
 	g := gitx.New(c.Scratch)
-	nHist := c.N(8, 50)
-	perHist := c.N(9, 30)
+	nHist := c.N(8, 32)
+	perHist := c.N(9, 24)
 	rounds := 3
 	var mu sync.Mutex
 	failCount := map[string]int{}
@@ -553,8 +553,8 @@ func run(c *vf.Ctx) {
 				ignoredBy := map[string]string{}
 				var ask []string
 				for _, d := range diffs {
-					if norm(d.git) == "  " && d.gogit == "??" {
-						ask = append(ask, d.path)
+					if d.gogit == "??" && len(d.git) == 2 && d.git[1] != '?' {
+						ask = append(ask, d.path) // go-git lists it as untracked, git does not
 					}
 				}
 				if len(ask) > 0 {
@@ -578,9 +578,9 @@ func run(c *vf.Ctx) {
 					feat := m.feature(d.path, fileMode)
 					key := fmt.Sprintf("status:git=%s:gogit=%s:%s", strings.ReplaceAll(d.git, " ", "_"), strings.ReplaceAll(d.gogit, " ", "_"), feat)
 					switch {
-					case norm(d.git) == "  " && d.gogit == "??" && strings.HasPrefix(ignoredBy[d.path], "info-exclude:"):
+					case d.gogit == "??" && strings.HasPrefix(ignoredBy[d.path], "info-exclude:"):
 						key = "status:ignored-by-info-exclude:reported-untracked"
-					case norm(d.git) == "  " && d.gogit == "??" && ignoredBy[d.path] != "":
+					case d.gogit == "??" && ignoredBy[d.path] != "":
 						key = "status:ignored-by-" + ignoredBy[d.path] + ":reported-untracked"
 					case !fileMode && len(d.git) == 2 && len(d.gogit) == 2 && norm(d.git)[0] == d.gogit[0] && d.git[1] == ' ' && d.gogit[1] == 'M':
 						key = "status:filemode-false:exec-bit-difference-reported-modified"
@@ -588,7 +588,7 @@ func run(c *vf.Ctx) {
 						key = "status:staged-deletion-still-on-disk:staging-D-reported-untracked"
 					case strings.HasPrefix(feat, "gogit-move-to") && d.git[0] == d.gogit[0] && norm(d.git)[1] == 'M' && d.gogit[1] == ' ':
 						key = "status:gogit-move-of-locally-modified-file:worktree-M-missed"
-					case strings.HasPrefix(feat, "git-add-N"):
+					case m.logged("git-add-N:" + d.path):
 						key = fmt.Sprintf("status:intent-to-add:git=%s:gogit=%s", strings.ReplaceAll(d.git, " ", "_"), strings.ReplaceAll(d.gogit, " ", "_"))
 					case m.logged("edit-samesize-racy:"+d.path) && norm(d.git)[1] == 'M' && d.gogit[1] == ' ' && norm(d.git)[0] == d.gogit[0] && m.gogitWroteIndexAfter("edit-samesize-racy:"+d.path):
 						key = "status:racy-samesize-edit-then-index-written-by-gogit:reported-unmodified"
@@ -615,8 +615,8 @@ func run(c *vf.Ctx) {
 	})
 	c.Extra("git_invocations", gitx.Calls.Load())
 	c.Extra("failures_by_key", failCount)
-	c.Floor("states compared", c.Counter("states_compared"), c.N(120, 2500))
-	c.Floor("paths compared", c.Counter("paths_compared"), c.N(1500, 30000))
+	c.Floor("states compared", c.Counter("states_compared"), c.N(120, 1500))
+	c.Floor("paths compared", c.Counter("paths_compared"), c.N(1500, 20000))
 	c.Floor("distinct XY codes seen in git's answers", c.SeenCount("xy_codes"), c.N(9, 11))
 	c.Floor("mutation kinds", c.SeenCount("mutation_kinds"), 18)
 	c.Assume("git's type-change code T is compared as M: go-git's StatusCode has no T")
